@@ -484,9 +484,11 @@ class JSONPatch:
                     value=self._op_value(operation, "value", "test", i),
                 )
             else:
+                # `op` can be any JSON value. Not all of them can be rendered.
+                name = op if isinstance(op, str) else type(op).__name__
                 raise JSONPatchError(
                     "expected 'op' to be one of 'add', 'remove', 'replace', "
-                    f"'move', 'copy' or 'test' ({op}:{i})"
+                    f"'move', 'copy' or 'test' ({name}:{i})"
                 )
 
     def _op_pointer(
